@@ -20,7 +20,7 @@ func init() {
 	register(&explore.Prop{
 		ID: "C14", Level: levelMC, Explorer: "E2 path mode (build histories, deterministic pool, owned map order) + E4 schedule explorer (concurrent builders)",
 		Instr: true,
-		Rule: "instrumented build: sync.Pool replaced by a deterministic LIFO pool, every `range` over a map iterates in an order the explorer chooses. Histories: a menu of 15 batches chosen to leave different residue in the pooled builder (more/fewer fields, terms, postings, locations; doc values on/off; larger then smaller; composite fields naming the same field under different schemas; a 41-field batch whose later documents carry only 2-3 of the fields; a batch in which every field including `_id` has doc values; a 300-word dictionary of pseudo-random words; a build that FAILS with an unknown chunk mode); every history of length <=3 (thorough <=4) followed by every target, under chunk modes {1025, 2}; HIST-LARGE: histories [big], [big, m] (thorough also [m, big]) with big = a 1100-document batch or a 5000-word dictionary (thorough also 2100 documents) followed by every target; HIST-HUGE: histories [huge], [m, huge] with huge = one document of 140000 distinct terms (beyond 2^16 and 2^17 postings lists), followed by every target and by dictionaries of 5000, 2000, 70 001 and 135 000 words; map order: for every map-range site reached, reverse and rotated orders as single deviations; schedules: 2 threads x 2 builds and 3 threads x 1 build of different batches at preemption bound 2 (scheduling points at pool/once operations and written package-level state); " +
+		Rule: "instrumented build: sync.Pool replaced by a deterministic LIFO pool, every `range` over a map iterates in an order the explorer chooses. Histories: a menu of 15 batches chosen to leave different residue in the pooled builder (more/fewer fields, terms, postings, locations; doc values on/off; larger then smaller; composite fields naming the same field under different schemas; a 41-field batch whose later documents carry only 2-3 of the fields; a batch in which every field including `_id` has doc values; a 300-word dictionary of pseudo-random words; a build that FAILS with an unknown chunk mode); every history of length <=3 (thorough <=4) followed by every target, under chunk modes {1025, 2}; HIST-LARGE: histories [big], [big, m] (thorough also [m, big]) with big = a 1100-document batch or a 5000-word dictionary (thorough also 2100 documents) followed by every target; HIST-DOCS: two batches of 3100 / 4200 documents with equal shape but other field names (other norms) one after the other, with and without a small batch in between; HIST-HUGE: histories [huge], [m, huge] with huge = one document of 140000 distinct terms (beyond 2^16 and 2^17 postings lists), followed by every target and by dictionaries of 5000, 2000, 70 001 and 135 000 words; map order: for every map-range site reached, reverse and rotated orders as single deviations; schedules: 2 threads x 2 builds and 3 threads x 1 build of different batches at preemption bound 2 (scheduling points at pool/once operations and written package-level state); " +
 			"oracle: bytes(target | history, order, schedule) == bytes(target | cold start, sorted order, alone); non-trivial = the pool held a recycled builder when the target build started (VerifInterimPool + PoolLen) / schedule has a preemption",
 		Assumptions: []string{"the deterministic pool models sync.Pool as LIFO reuse; the real pool may also drop objects (equivalent to a cold start, which is the baseline)", "bounded histories/menus (DESIGN.md 5 C14)", "preemption bound 2, <=3 threads; statement-level atomicity"},
 		Budget:      qBudget, Run: runC14,
@@ -131,12 +131,16 @@ func c14TermsP(n, k int) []model.Doc {
 }
 
 // c14Big: n documents with postings, locations, a doc-value field and stored values in every third.
-func c14Big(n int) []model.Doc {
+func c14Big(n int) []model.Doc { return c14BigNamed(n, "a", "b") }
+
+// c14BigNamed: the same batch with other names for its two fields (same field ids, same lengths,
+// other norms: the norm function of the harness depends on the field name).
+func c14BigNamed(n int, fa, fb string) []model.Doc {
 	b := make([]model.Doc, n)
 	for i := range b {
-		d := model.Doc{gen.IDField("g", i), {N: "a", Len: 2, Terms: []model.Term{{T: "x", Freq: 1 + i%2, Locs: []model.Loc{{P: 1, S: 0, E: 1}}}, {T: fmt.Sprintf("u%d", i%9), Freq: 1}}}}
+		d := model.Doc{gen.IDField("g", i), {N: fa, Len: 2, Terms: []model.Term{{T: "x", Freq: 1 + i%2, Locs: []model.Loc{{P: 1, S: 0, E: 1}}}, {T: fmt.Sprintf("u%d", i%9), Freq: 1}}}}
 		if i%2 == 0 {
-			d = append(d, model.Field{N: "b", Len: 1, DV: true, Terms: []model.Term{{T: fmt.Sprintf("t%d", i%5), Freq: 1}}})
+			d = append(d, model.Field{N: fb, Len: 1, DV: true, Terms: []model.Term{{T: fmt.Sprintf("t%d", i%5), Freq: 1}}})
 		}
 		if i%3 == 0 {
 			d[1].St, d[1].Val = true, []byte(fmt.Sprintf("stored-%d", i))
@@ -289,6 +293,49 @@ func runC14(c *explore.Ctx) {
 							c.Violate(scope, my, sigOf("C14", "history", "error: "+err.Error()), err.Error(), cas)
 						} else if !bytes.Equal(got, want) {
 							c.Violate(scope, my, "C14/history/bytes-differ", fmt.Sprintf("target built after history %v differs from its cold-start bytes (%d vs %d bytes, first difference at %d)", h, len(got), len(want), firstDiff(got, want)), cas)
+						}
+						if c.Expired() {
+							return
+						}
+					}
+				}
+			}
+		}
+		// HIST-DOCS: two batches of thousands of documents with the same shape (field ids, field
+		// lengths) but other field names - hence other norms - one after the other on the recycled
+		// builder, with and without a small build in between: whatever the builder memoises per
+		// (field id, length) for large batches
+		if mode == 1025 {
+			scope := fmt.Sprintf("HIST-DOCS/%d", mode)
+			var li int64
+			for _, n := range []int{3100, 4200} {
+				pair := [][]model.Doc{c14BigNamed(n, "a", "b"), c14BigNamed(n, "aaa", "bbbbb")}
+				for first := 0; first < 2; first++ {
+					for between := 0; between < 2; between++ {
+						my := li
+						li++
+						if !c.MineIdx(scope, my) {
+							continue
+						}
+						c.Eval()
+						c.Nontrivial()
+						verifrt.ResetPools()
+						want, err := buildBytes(pair[1-first], mode)
+						if err != nil {
+							envFail(c, "C14 HIST-DOCS cold build failed: "+err.Error())
+							return
+						}
+						verifrt.ResetPools()
+						buildBytes(pair[first], mode)
+						if between == 1 {
+							buildBytes(menu[2], mode)
+						}
+						got, err := buildBytes(pair[1-first], mode)
+						cas := fmt.Sprintf("%s #%d: %d documents with fields named (a,b) / (aaa,bbbbb); history = batch %d%s, target = batch %d", scope, my, n, first, []string{"", " + a small batch"}[between], 1-first)
+						if err != nil {
+							c.Violate(scope, my, sigOf("C14", "history", "error: "+err.Error()), err.Error(), cas)
+						} else if !bytes.Equal(got, want) {
+							c.Violate(scope, my, "C14/history/bytes-differ", fmt.Sprintf("target built after the history differs from its cold-start bytes (%d vs %d bytes, first difference at %d)", len(got), len(want), firstDiff(got, want)), cas)
 						}
 						if c.Expired() {
 							return
